@@ -87,7 +87,13 @@ def gen_cases(ctx):
                 ev.append(["req", rng.randrange(1, 256), rng.choice(vias)])
             elif r < 0.8:
                 ev.append(["rel", rng.randrange(1, 256)])
-            elif r < 0.9:
+            elif r < 0.84:
+                ev.append(["lookup_frame", rng.choice([0o1, 0o3, 0o23, 0o5]), rng.randrange(1, 256)])
+            elif r < 0.87:
+                ev.append(["data_frame", rng.choice([0o2, 0o3, 0o13, 0o4]), rng.randrange(0, 256)])
+            elif r < 0.89:
+                ev.append(["req_busy", rng.randrange(1, 256), rng.choice([0o23, 0o123, 0o13])])
+            elif r < 0.92:
                 ev.append(["rel_addr", rng.choice([0o1, 0o2, 0o13, 0o23, 0o5])])
             else:
                 ev.append(["set", rng.randrange(1, 256), rng.choice([0o15, 0o25, 0o35, 0o45, 0o55])])
@@ -96,6 +102,9 @@ def gen_cases(ctx):
     for via in (0o4444, 0o1, 0o2, 0o5, 0o32, 0o14, 0o55, 0o132, 0o315, 0o444):
         for k in range(5):
             yield {"part": "refill", "via": via, "release_index": k}
+    for via in (0o23, 0o123, 0o13, 0o343, 0o51):
+        for nid in (7, 200):
+            yield {"part": "seq", "events": [["req", 5, 0o4444], ["req_busy", nid, via], ["req", 9, via]]}
     for n in range(0, 256, 1 if ctx.tier == "thorough" else 3):
         for as_bin in (False, True):
             yield {"part": "persist", "n": n, "as_bin": as_bin, "seed": n}
@@ -140,6 +149,26 @@ def one_event(ctx, case, rig, radio, master, ref, ev, hist, fid):
                 return True
             radio.inject_rx(3, net_ref.pack_header(addr, 0, fid, 197, 0))
             master.update()
+        elif ev[0] == "lookup_frame":
+            # a connected node asks for an ID's address: never a lease event
+            radio.inject_rx(4, net_ref.pack_header(ev[1], 0, fid, 196, ev[2] & 0xFF) + bytes([ev[2] & 0xFF]))
+            master.update()
+        elif ev[0] == "data_frame":
+            radio.inject_rx(2, net_ref.pack_header(ev[1], 0, fid, 5, ev[2] & 0xFF) + b"user data")
+            master.update()
+            while master.available():
+                master.read()
+        elif ev[0] == "req_busy":
+            # a relayed request while another frame arrives during the master's NETWORK_ACK wait
+            radio.inject_rx(2, request_frame(ev[1], ev[2], fid))
+            other = net_ref.pack_header(0o3, 0, fid + 1000, 196, 99) + bytes([200])
+            h = rig.world.at(node.t + 3 * W.MS, radio.inject_rx, 5, other)
+            master.update()
+            rig.world.cancel(h)  # (a refused request returns before the frame would have arrived)
+            for _ in range(3):
+                if not radio.rx_fifo:
+                    break
+                master.update()
         elif ev[0] == "rel_addr":
             master.release_address(ev[1])
         elif ev[0] == "set":
@@ -159,7 +188,20 @@ def one_event(ctx, case, rig, radio, master, ref, ev, hist, fid):
                           "(history %r)" % (ev, inv[v], k, oct(v), hist[-8:]), case)
             return False
         inv[v] = k
-    if ev[0] == "req":
+    if ev[0] in ("rel", "lookup_frame", "data_frame"):
+        # exactly the released lease disappears / nothing changes; nobody is sent an address
+        exp = dict(before)
+        if ev[0] == "rel":
+            exp = {k: v for k, v in before.items() if v != before.get(ev[1])}
+        stray = [p for p in rig.air.log[air0:] if p.kind == "data" and p.src is radio
+                 and len(p.payload) >= 8 and p.payload[6] == 128]
+        if table != exp or stray:
+            ctx.violation("lease-event-without-request/%s" % ev[0],
+                          "after the %s frame the table changed %r -> %r and %d address replies went on air "
+                          "(history %r)" % (ev[0], {k: oct(v) for k, v in before.items()},
+                                            {k: oct(v) for k, v in table.items()}, len(stray), hist[-8:]), case)
+            return False
+    if ev[0] in ("req", "req_busy"):
         nid, via = ev[1], ev[2]
         replies = [p for p in rig.air.log[air0:] if p.kind == "data" and p.src is radio
                    and len(p.payload) >= 10 and p.payload[6] == 128 and p.attempt == 0]
@@ -210,6 +252,13 @@ def one_event(ctx, case, rig, radio, master, ref, ev, hist, fid):
                                                                     [oct(a) for a in slots14][:3] or oct(own),
                                                                     {k: oct(v) for k, v in before.items()}, hist[-8:]), case)
                 return False
+    if ev[0] == "req_busy":
+        extra = {k: v for k, v in table.items() if k not in before and k != ev[1]}
+        if extra:
+            ctx.violation("lease-under-foreign-id", "request of ID %d via %s while another frame arrived: the "
+                          "table gained %r (history %r)" % (ev[1], oct(ev[2]), {k: oct(v) for k, v in extra.items()},
+                                                            hist[-8:]), case)
+            return False
     ref.t = dict(table)
     return True
 
@@ -249,6 +298,20 @@ def run_refill(ctx, case, rig, radio, master):
         ctx.violation("parent-not-fillable", "%d requests via %s produced %d leases"
                       % (n, oct(via), len(master.dhcp_dict)), case)
         return
+    # one request too many is refused ...
+    hist.append(["req", 78, via])
+    if not one_event(ctx, case, rig, radio, master, ref, ["req", 78, via], hist, fid + 50):
+        return
+    if 78 in master.dhcp_dict and net_ref.parent(master.dhcp_dict[78]) == base and (master.dhcp_dict[78] >> (3 * net_ref.level(base))) <= 4 and via != 0o4444:
+        ctx.violation("lease-from-full-parent", "a 5th request via %s was granted %s" % (oct(via), oct(master.dhcp_dict[78])), case)
+        return
+    master.dhcp_dict.pop(78, None)
+    ref.t.pop(78, None)
+    # ... and the frames that follow it are not requests
+    for ev in (["lookup_frame", master.dhcp_dict[20], 21], ["data_frame", master.dhcp_dict[20], 0]):
+        hist.append(ev)
+        if not one_event(ctx, case, rig, radio, master, ref, ev, hist, fid + 60 + len(hist)):
+            return
     k = case["release_index"] % n
     victim = 20 + k
     addr = master.dhcp_dict[victim]
